@@ -10,6 +10,8 @@ Oracles    : implementation only, judged by an independent reader (json / fastav
                         content unchanged; accepted -> full scan and filtered scans on every column return
                         exactly the supplied rows (up to the declared type's representation), never raise
                cells    every column type x every value class, one cell at a time
+               spelling type SPELLINGS ({"type": t}, +doc, nested, upper case, [t], {}) in the table schema or in the
+                        argument x the values plain pyarrow silently alters, fresh and reused handles
                prebuilt pre-built parquet files with divergent footers / other formats through append_files
 Tie        : correspondence of every hand-written model piece with the code:
                accept   _validate_schema_against_table      vs Model/Schema.v accept_schema
@@ -23,6 +25,10 @@ Findings   : (findings/C11-unchanged-tree.log, findings/C11-prebuilt-format-unch
                F-C11b  pyarrow silently alters values validate_records_strict let through (1.5 -> 1, int -> timestamp,
                        bytes <-> str, datetime -> date, 1e40 -> float32 inf, ...)                                     (fixed)
                F-C11c  append_files accepts avro / orc files the read path cannot read -> scans raise                 (fixed)
+               F-C11d  _value_fits skipped every non-string type definition: a table (or, with a lenient signature, an
+                       argument) whose types are spelled {"type": t} had NO value admission (1.5 -> 1 ...)             (fixed)
+               F-C11e  dict-spelled binary columns got the repr of their bytes as string bounds: str literals mis-pruned (fixed)
+                       (findings/C11-type-spelling-unchanged-tree.log, findings/C11-spelled-binary-bounds-unchanged-tree.log)
                open    tables created without a schema enforce nothing (probe_legacy; outside the proved scope)
 """
 from __future__ import annotations
@@ -145,17 +151,77 @@ def same_table_state(a: Dict[str, Any], b: Dict[str, Any]) -> Optional[str]:
     return None
 
 
+# ---------------------------------------------------------------------------------- type spellings
+# Schema.__post_init__ validates only STRING type definitions; a dict / list definition passes unchecked.
+SHAPES = ["dict", "dict_doc", "nested", "upper", "list", "empty"]
+
+
+def spell(t: str, shape: str) -> Any:
+    """Another spelling of a field's type definition around the primitive type name t."""
+    return {"dict": {"type": t}, "dict_doc": {"type": t, "doc": "spelled"}, "nested": {"type": {"type": t}},
+            "upper": {"type": t.upper()}, "list": [t], "empty": {}}[shape]
+
+
+def base_of(tdef: Any) -> str:
+    """The primitive type name a (possibly spelled) definition was built around."""
+    if isinstance(tdef, str):
+        return tdef
+    if isinstance(tdef, list):
+        return tdef[0] if tdef else "string"
+    x = tdef.get("type", "string")
+    if isinstance(x, dict):
+        x = x.get("type", "string")
+    return x.lower()
+
+
+def declared_type(tdef: Any) -> str:
+    """The oracle's reading of a definition: the primitive type it plainly names ("int", {"type": "int", ...}),
+    else "opaque" -- a definition that names no primitive type, under which nothing may be altered."""
+    if isinstance(tdef, str):
+        return tdef
+    if isinstance(tdef, dict) and isinstance(tdef.get("type"), str) and tdef["type"] in TYPES:
+        return tdef["type"]
+    return "opaque"
+
+
+def resolved_type(tdef: Any) -> str:
+    """MODEL side (follows the code): what _iceberg_type_to_arrow / _value_fits resolve a definition to."""
+    if isinstance(tdef, str):
+        return tdef
+    if isinstance(tdef, dict):
+        x = tdef.get("type", "string")
+        return x if isinstance(x, str) and x in TYPES else "string"
+    return "string"
+
+
+def spell_code(tdef: Any) -> int:
+    """0 for a plain string; otherwise injective in the JSON text of the definitions this module builds."""
+    if isinstance(tdef, str):
+        return 0
+    for si, shape in enumerate(SHAPES):
+        for ti, t in enumerate(TYPES):
+            if spell(t, shape) == tdef:
+                return (si + 1) * 100 + (0 if shape == "empty" else ti)
+    raise ValueError(f"unknown spelling {tdef!r}")
+
+
 # ---------------------------------------------------------------------------------- cases
-def mk_fields(rng, ncols: int) -> List[Dict[str, Any]]:
+def mk_fields(rng, ncols: int, p_spelled: float = 0.0) -> List[Dict[str, Any]]:
     names = ["a", "b", "c"][:ncols]
     fields = []
+    spelled = rng.random() < p_spelled
     for i, n in enumerate(names):
-        fields.append({"id": i + 1, "name": n, "type": rng.choice(TYPES), "required": rng.random() < 0.25})
+        t: Any = rng.choice(TYPES)
+        if spelled and rng.random() < 0.7:
+            t = spell(t, rng.choice(["dict", "dict", "dict", "dict_doc"] + SHAPES))
+        fields.append({"id": i + 1, "name": n, "type": t, "required": rng.random() < 0.25})
     return fields
 
 
 VARIANTS = ["omitted", "identical", "identical_new_sid", "required_key_dropped", "reordered", "reordered_new_sid", "renumbered",
-            "ids_shifted", "retyped", "nullability", "extra", "missing", "renamed"]
+            "ids_shifted", "retyped", "nullability", "extra", "missing", "renamed",
+            # the same types, spelled differently (all fields / one field / back to the plain string)
+            "spelled_dict", "spelled_dict_doc", "spelled_nested", "spelled_upper", "spelled_list", "spelled_empty", "spelled_one", "spelled_plain"]
 
 
 def make_variant(rng, fields: List[Dict[str, Any]], name: str) -> Optional[Tuple[Optional[List[Dict[str, Any]]], int]]:
@@ -193,7 +259,23 @@ def make_variant(rng, fields: List[Dict[str, Any]], name: str) -> Optional[Tuple
         return fs, rng.choice([1, 7])
     if name == "retyped":
         f = rng.choice(fs)
-        f["type"] = rng.choice([t for t in TYPES if t != f["type"]])
+        f["type"] = rng.choice([t for t in TYPES if t != base_of(f["type"])])
+        return fs, rng.choice([1, 7])
+    if name.startswith("spelled_"):
+        shape = name[len("spelled_"):]
+        if shape == "plain":
+            if all(isinstance(f["type"], str) for f in fs):
+                return None
+            for f in fs:
+                f["type"] = base_of(f["type"])
+        elif shape == "one":
+            f = rng.choice(fs)
+            f["type"] = spell(base_of(f["type"]), rng.choice(["dict", "dict_doc"]))
+        else:
+            for f in fs:
+                f["type"] = spell(base_of(f["type"]), shape)
+        if fs == fields:
+            return None
         return fs, rng.choice([1, 7])
     if name == "nullability":
         f = rng.choice(fs)
@@ -226,7 +308,7 @@ def gen_records(rng, fields: List[Dict[str, Any]], p_bad: float) -> List[Dict[st
                 if rng.random() < 0.5:
                     r[f["name"]] = None
             else:
-                gv = good_values(f["type"])
+                gv = good_values(declared_type(f["type"]))
                 r[f["name"]] = rng.choice(gv)
         if rng.random() < 0.04:
             r["zz"] = 1                                   # unknown field
@@ -235,7 +317,7 @@ def gen_records(rng, fields: List[Dict[str, Any]], p_bad: float) -> List[Dict[st
 
 
 def gen_case(rng, nsteps: int, p_bad: float = 0.12) -> Dict[str, Any]:
-    fields = mk_fields(rng, rng.choice([1, 2, 2, 3]))
+    fields = mk_fields(rng, rng.choice([1, 2, 2, 3]), p_spelled=0.25)
     steps = []
     for _ in range(nsteps):
         while True:
@@ -348,7 +430,7 @@ def run_case(case: Dict[str, Any], root: str, rng=None, filters_per_col: int = 2
             ev["leaked"] = len(leaked)
         else:
             eff = arg_fields if arg_fields is not None else case["fields"]
-            types = {f["name"]: f["type"] for f in eff}
+            types = {f["name"]: declared_type(f["type"]) for f in eff}
             for r in step["records"]:
                 supplied.append((types, r))
         # scans must keep working after every step (a rejected append must not break them either)
@@ -390,6 +472,24 @@ def run_case(case: Dict[str, Any], root: str, rng=None, filters_per_col: int = 2
                         if not _same_rows(res, want):
                             violations.append((f"mis-filter:{_last_accepted_variant(trace, ev)}",
                                                f"step {si}: scan(filter={col} {op} {lit!r}) returns {len(res)} rows {res!r:.200}, the full scan holds {len(want)} matching rows {want!r:.200}"))
+                    if isinstance(present[0], bytes):
+                        # the same question asked with a str literal (pyarrow compares it bytewise with the binary
+                        # column): every present row is >= the smallest one
+                        try:
+                            s_lit = min(present).decode("utf-8")
+                        except UnicodeDecodeError:
+                            s_lit = None
+                        if s_lit is not None:
+                            try:
+                                res = fresh.scan(filter={col: (">=", s_lit)})
+                            except Exception:        # noqa: BLE001 - cross-kind literals are C12's concern
+                                res = None
+                            if res is not None:
+                                ev["filters"] = ev.get("filters", 0) + 1
+                                want = [r for r in got if r.get(col) is not None]
+                                if not _same_rows(res, want):
+                                    violations.append((f"mis-filter-str-literal:{_last_accepted_variant(trace, ev)}",
+                                                       f"step {si}: scan(filter={col} >= {s_lit!r}) returns {len(res)} rows {res!r:.200}, the full scan holds {len(want)} matching rows {want!r:.200}"))
         trace.append(ev)
         if violations:
             break
@@ -529,6 +629,71 @@ def oracle_cells(ctx) -> None:
     ctx.stats["cells"] = {"cases": n, **outcomes}
 
 
+def coercible_values(t: str) -> List[Any]:
+    """Values plain pyarrow converts for the column type WITHOUT raising although the result is not the value
+    supplied (judged by `exact`): the silently altering conversions."""
+    out = []
+    for v in POOL:
+        if v is None:
+            continue
+        res = real_conv(t, v)
+        if res[0] == "ok" and not exact(t, v, res[1]):
+            out.append(v)
+    return out
+
+
+def oracle_spelling(ctx) -> None:
+    """Type SPELLINGS x silently-coercible values.  A definition such as {"type": "int"} declares an int column
+    (the writer maps it to int32); whether it reaches the table through create_table or through an explicit
+    schema argument, a value the column cannot hold must be refused, not altered."""
+    thorough = ctx.tier == "thorough"
+    n = 0
+    seen = set()
+    outcomes = {"accepted": 0, "rejected": 0}
+
+    def one(tag: str, shape: str, case: Dict[str, Any], v: Any, decl: str) -> None:
+        nonlocal n
+        res = run_case(case, os.path.join(ctx.scratch, "spell"), rng=ctx.rng, filters_per_col=1)
+        n += 1
+        ctx.count(1, ("spelling", tag, shape, decl, repr(v)))
+        outcomes[res["trace"][-1]["outcome"]] += 1
+        for key, what in res["violations"]:
+            k2 = f"spelled-{tag}:{shape}:{key}"
+            if k2 in seen:
+                continue
+            seen.add(k2)
+            ctx.violation(k2, f"type spelled {shape} ({tag}), declared {decl}, value {v!r}: {what}", {"kind": "history", "case": case_json(case)})
+
+    for t in TYPES:
+        bad_vals = coercible_values(t)
+        vals = (bad_vals if thorough else bad_vals[:4]) + (good_values(t)[1:2] or good_values(t)[:1])
+        for shape in (SHAPES if thorough else ["dict", "dict_doc"]):
+            td = spell(t, shape)
+            decl = declared_type(td)
+            for v in vals if decl != "opaque" else [b"x", "s", 1, 1.5]:
+                plain = [{"id": 1, "name": "a", "type": t, "required": False}]
+                spelled = [{"id": 1, "name": "a", "type": td, "required": False}]
+                # (1) table declared with the plain string, argument spelled: fresh handle
+                one("arg", shape, {"fields": plain, "steps": [{"handle": "fresh", "variant": "spelled_" + shape, "arg": copy.deepcopy(spelled), "sid": 1, "records": [{"a": v}]}]}, v, decl)
+                # (2) table declared with the spelled definition, argument omitted
+                one("table", shape, {"fields": spelled, "steps": [{"handle": "A", "variant": "omitted", "arg": None, "sid": 1, "records": [{"a": v}]}]}, v, decl)
+                if thorough:
+                    # (3) reused handle that already wrote under the plain schema, then the spelled argument under the same id
+                    one("arg-reused", shape, {"fields": plain, "steps": [
+                        {"handle": "A", "variant": "omitted", "arg": None, "sid": 1, "records": [{"a": good_values(t)[0]}]},
+                        {"handle": "A", "variant": "spelled_" + shape, "arg": copy.deepcopy(spelled), "sid": 1, "records": [{"a": v}]}]}, v, decl)
+                    # (4) spelled table, identical spelled argument under another schema id
+                    one("table-arg", shape, {"fields": spelled, "steps": [{"handle": "fresh", "variant": "identical_new_sid", "arg": copy.deepcopy(spelled), "sid": 7, "records": [{"a": v}]}]}, v, decl)
+    if not thorough:
+        for shape in ["nested", "upper", "list", "empty"]:
+            for t in ("int", "string"):
+                td = spell(t, shape)
+                for v in [b"x", "s", 1.5]:
+                    one("table", shape, {"fields": [{"id": 1, "name": "a", "type": td, "required": False}],
+                                          "steps": [{"handle": "A", "variant": "omitted", "arg": None, "sid": 1, "records": [{"a": v}]}]}, v, "opaque")
+    ctx.stats["spelling"] = {"cases": n, **outcomes}
+
+
 def oracle_prebuilt(ctx, only: Optional[str] = None) -> None:
     """Pre-built parquet files through append_files: divergent footers must be refused or harmless."""
     import pyarrow as pa
@@ -644,8 +809,8 @@ def b2c(b: bool) -> str:
 
 
 def field_coq(f: Dict[str, Any]) -> str:
-    return (f"{{| fid := ({f['id']})%Z; fname := {NAME_NUM[f['name']]}%Z; ftype := T_{f['type']}; "
-            f"freq := {b2c(bool(f.get('required', False)))} |}}")
+    return (f"{{| fid := ({f['id']})%Z; fname := {NAME_NUM[f['name']]}%Z; ftype := T_{resolved_type(f['type'])}; "
+            f"fspell := {spell_code(f['type'])}%Z; freq := {b2c(bool(f.get('required', False)))} |}}")
 
 
 def fields_coq(fs: List[Dict[str, Any]]) -> str:
@@ -725,7 +890,7 @@ def corr_accept_arrow(ctx) -> None:
     ar_cases, ar_impl, ar_exprs = [], [], []
     tags = arrow_tags()
     for ti in range(ntables):
-        fields = mk_fields(rng, rng.choice([1, 2, 3]))
+        fields = mk_fields(rng, rng.choice([1, 2, 3]), p_spelled=0.3)
         root = os.path.join(ctx.scratch, "acc")
         shutil.rmtree(root, ignore_errors=True)
         table = create_table(root, Schema(schema_id=1, fields=copy.deepcopy(fields)))
@@ -799,7 +964,14 @@ def corr_records(ctx) -> None:
     impl = [bool(DataFileManager._value_fits(t, v)) if hasattr(DataFileManager, "_value_fits") else True for t, v in cases]
     got = coqbuild.coq_eval(REQ, [f"value_fits T_{t} {pyval_to_coq(v)}" for t, v in cases])
     bad = [{"type": t, "value": enc(v), "impl": i, "model": g} for (t, v), i, g in zip(cases, impl, got) if i != g]
-    ctx.correspondence("value_fits", len(cases), bad)
+    # the same test through every other SPELLING of the type definition (resolved as the code resolves it)
+    shapes = SHAPES if ctx.tier == "thorough" else ["dict", "upper", "list"]
+    scases = [(spell(t, sh), v) for sh in shapes for t in TYPES for v in POOL]
+    simpl = [bool(DataFileManager._value_fits(td, v)) if hasattr(DataFileManager, "_value_fits") else True for td, v in scases]
+    sgot = coqbuild.coq_eval(REQ, [f"value_fits T_{resolved_type(td)} {pyval_to_coq(v)}" for td, v in scases])
+    bad += [{"type": td, "value": enc(v), "impl": i, "model": g} for (td, v), i, g in zip(scases, simpl, sgot) if i != g]
+    ctx.correspondence("value_fits", len(cases) + len(scases), bad)
+    ctx.count(len(scases), ("fits-spelled", len(scases)))
     for t, v in cases:
         ctx.count(1, ("fits", t, repr(v)))
     # (2) conv_sound / conv_kinds on every admitted value (admitted by the MODEL: the hypothesis' own premise)
@@ -834,7 +1006,7 @@ def corr_records(ctx) -> None:
     n = 150 if ctx.tier == "quick" else 1500
     rcases, rimpl, rexprs = [], [], []
     for _ in range(n):
-        fields = mk_fields(rng, rng.choice([1, 2, 3]))
+        fields = mk_fields(rng, rng.choice([1, 2, 3]), p_spelled=0.3)
         recs = gen_records(rng, fields, 0.3)
         if recs and recs[0] and rng.random() < 0.2:
             del recs[0][rng.choice(list(recs[0].keys()))]
@@ -893,16 +1065,17 @@ def corr_machine(ctx, runs: List[Tuple[Dict[str, Any], Dict[str, Any]]]) -> None
     """The e2e histories through the append machine, with pyarrow's observed conversions as the oracle."""
     tags = arrow_tags()
     exprs, kept, impl = [], [], []
+    skipped = 0
     for case, res in runs:
         if not res["trace"] or any(k.startswith(("scan-raises", "rows-differ")) for k, _ in res["violations"]) and False:
             continue
         steps = case["steps"][:len(res["trace"])]
         # conversion table: every type in play x every cell value in play
-        ptypes = {f["type"] for f in case["fields"]}
+        ptypes = {resolved_type(f["type"]) for f in case["fields"]}
         values: List[Any] = [None]
         for st in steps:
             for f in (st["arg"] or []):
-                ptypes.add(f["type"])
+                ptypes.add(resolved_type(f["type"]))
             for r in st["records"]:
                 for v in r.values():
                     if not any(same_cell(v, w) and type(v) is type(w) for w in values):
@@ -949,6 +1122,7 @@ def corr_machine(ctx, runs: List[Tuple[Dict[str, Any], Dict[str, Any]]]) -> None
                         "model": g2[k] if k is not None else g2})
     ctx.correspondence("machine", len(kept), bad)
     ctx.stats["machine_steps"] = nsteps
+    ctx.stats["machine_cases_not_modelled"] = skipped
 
 
 # ---------------------------------------------------------------------------------- driver
@@ -970,6 +1144,7 @@ def run(ctx) -> None:
     ctx.proofs(THEOREMS, gen_files=["GenSchema.v", "GenPrune.v"])
     ctx.allow_axioms([])
     oracle_cells(ctx)
+    oracle_spelling(ctx)
     oracle_prebuilt(ctx)
     runs = oracle_e2e(ctx)
     probe_legacy(ctx)
